@@ -56,7 +56,9 @@ def main():
                     os.remove(os.path.join(dst, "tests", "demo_seed.rs"))
                     return passed, out[-600:]
                 else:
-                    rc, out = sh("sh %s" % demo_sh, dst, env)
+                    env2 = dict(env)
+                    env2.pop("CARGO_TARGET_DIR", None)     # the script runs target/debug/daacfind of the scratch copy
+                    rc, out = sh("sh %s" % demo_sh, dst, env2)
                     return rc == 0, out[-600:]
             ok0, out0 = run_demo()
             ran.append("unpatched: demo -> %s" % ("pass" if ok0 else "FAIL"))
